@@ -130,4 +130,31 @@ PLANS = {
         "quick": [{"flavor": "debug", "shards": 4, "extra": {"focus": "c10"}}, {"flavor": "release", "shards": 4}],
         "thorough": BOTH_T,
     },
+
+    "C17": {
+        "level": "exploration",
+        "rule": "trap-and-emulate: cli/sti/hlt executed by the real interrupts::* functions fault in ring 3, are decoded and applied "
+                "to an emulated IF that is mirrored into the cfg-gated RFLAGS overlay (hook H1). Random nesting trees of "
+                "without_interrupts (depth <= 12, branching <= 3, up to 10^4 nodes) with closures returning unique values, for both "
+                "initial IF states: body ran exactly once with IF=0, IF afterwards = IF before, result passed through, event log = "
+                "exactly [cli, sti] around the outermost call when IF was 1 and empty when IF was 0; enable/disable = one sti/cli and "
+                "an otherwise unchanged register file; are_enabled = IF; enable_and_hlt: at the sti trap the next byte is hlt and the "
+                "two events are consecutive. distinct_nontrivial counts distinct (profile, initial IF, tree depth, node-count class) tuples.",
+        "assumptions": COMMON_ASSUME + ["the monitor sees instructions and operands, not interrupt delivery; closures leave the flag as they found it (as the property states)"],
+        "quick": [{"flavor": "debug", "shards": 2}, {"flavor": "release", "shards": 2}],
+        "thorough": BOTH_T,
+    },
+    "C18": {
+        "level": "exploration",
+        "rule": "trap-and-emulate: every in/out executed by the real Port/PortReadOnly/PortWriteOnly objects faults in ring 3; the "
+                "monitor decodes opcode + operand-size prefix (width), DX (port), AL/AX/EAX (value) and supplies a fresh PRNG value "
+                "to each `in`. Exhaustive over all 65536 port numbers x 3 widths x 3 access kinds (+ clones) with one value each, "
+                "plus random (port, value) pairs incl. extreme values; exactly one event per call, register form only (string I/O "
+                "= memory access = violation). PartialEq/Clone checked on the same pairs. distinct_nontrivial counts distinct "
+                "(profile, width, access kind, port class) tuples.",
+        "assumptions": COMMON_ASSUME + ["the device model stands in for hardware: the value 'the device supplied' is the value the monitor put into AL/AX/EAX"],
+        "exhaustive_whole": False,
+        "quick": [{"flavor": "debug", "shards": 4}, {"flavor": "release", "shards": 4}],
+        "thorough": BOTH_T,
+    },
 }
